@@ -38,10 +38,11 @@ class GenRule(TermRule):
         st.ts[k] = n + 1
         return True
 
-    def _raise(self, st, node, name, cls):
+    def _raise(self, st, node, name, cls, args=()):
         s2 = st.copy()
         s2.log(node, f"{name} raises {cls}")
         s2.ts["fault"] = (name, cls)
+        s2.ts["fault_args"] = tuple(a for a in args if isinstance(a, str))
         return Out("raise", s2, exc(cls))
 
     def ev(self, st, *e):
@@ -210,14 +211,14 @@ class GenRule(TermRule):
                 outs = [Out("normal", s, tv(T(name, *args)))]
                 r = self.raising.get(name) or self.raising.get(text)
                 if r:
-                    outs.append(self._raise(st, node, name, r))
+                    outs.append(self._raise(st, node, name, r, args))
                 return outs
         if isinstance(f, ast.Attribute) and recv is not None:
             leaf = f.attr
             if recv.kind != "self" and leaf in PURE_STR_METHODS and not (recv.sym or "").startswith(("p:**",)):
                 return None  # known pure operation: TermRule builds the term
-            if recv.sym and recv.sym.startswith("list(") and leaf in ("append", "extend"):
-                return None  # local list builder
+            if recv.sym and ((recv.sym.startswith("list(") and leaf in ("append", "extend")) or (recv.sym.startswith("set(") and leaf in ("add", "update"))) and isinstance(f.value, ast.Name):
+                return None  # local list / set builder
             if recv.kind == "self" or text.startswith("cls."):
                 nm = f"self.{leaf}"
                 s = st.copy()
@@ -226,7 +227,7 @@ class GenRule(TermRule):
                 outs = [Out("normal", s, tv(T(nm, *args)))]
                 r = self.raising.get(leaf)
                 if r:
-                    outs.append(self._raise(st, node, nm, r))
+                    outs.append(self._raise(st, node, nm, r, args))
                 return outs
             if isinstance(f.value, ast.Call) and ast.unparse(f.value.func) == "super":
                 s = st.copy()
@@ -238,19 +239,19 @@ class GenRule(TermRule):
                 outs = [Out("normal", s, tv(T(f"{recv.sym}.{leaf}", *args)))]
                 r = self.raising.get(leaf)
                 if r:
-                    outs.append(self._raise(st, node, f"{recv.sym}.{leaf}", r))
+                    outs.append(self._raise(st, node, f"{recv.sym}.{leaf}", r, args))
                 return outs
             if recv.sym and recv.kind == "unk":
                 # a method of some other object: a term (pure unless declared raising)
                 outs = [Out("normal", st, tv(T(f"{recv.sym}.{leaf}", *args)))]
                 r = self.raising.get(leaf)
                 if r:
-                    outs.append(self._raise(st, node, f"{recv.sym}.{leaf}", r))
+                    outs.append(self._raise(st, node, f"{recv.sym}.{leaf}", r, args))
                 return outs
         if isinstance(f, ast.Name) and f.id in self.raising and f.id in PURE_BUILTINS and st.env.get(it.var(f.id)) is None:
             # a builtin declared as possibly raising (memoryview(x) -> TypeError, ...): its term, or the exception
             typ = f"builtins.{f.id}" if f.id in ("str", "bytes", "int", "float", "list", "tuple", "set", "frozenset", "dict", "bytearray", "memoryview") else None
-            return [Out("normal", st, AV("unk", sym=T(f.id, *args), none=False, typ=typ)), self._raise(st, node, f.id, self.raising[f.id])]
+            return [Out("normal", st, AV("unk", sym=T(f.id, *args), none=False, typ=typ)), self._raise(st, node, f.id, self.raising[f.id], args)]
         if isinstance(f, ast.Name):
             v = st.env.get(it.var(f.id))
             if v is not None and v.sym:
@@ -265,14 +266,14 @@ class GenRule(TermRule):
                     outs = [Out("normal", s, tv(T(nm, *args)))]
                     r = self.raising.get(leaf)
                     if r:
-                        outs.append(self._raise(st, node, nm, r))
+                        outs.append(self._raise(st, node, nm, r, args))
                     return outs
             if v is not None and v.sym and v.kind == "unk" and not v.sym.startswith(("list(", "tuple(", "p:*")) and ("(" in v.sym or v.sym.startswith("p:")):
                 # calling a value computed earlier (a function looked up in a table, a partial, ...): a term over that value
                 outs = [Out("normal", st, tv(T("call", v.sym, *args)))]
                 r = self.raising.get("call")
                 if r:
-                    outs.append(self._raise(st, node, "call", r))
+                    outs.append(self._raise(st, node, "call", r, args))
                 return outs
             if v is None and q is None:
                 host = it.m.funcs.get(getattr(it, "func_qual", None) or "")
@@ -296,7 +297,7 @@ class GenRule(TermRule):
                 outs = [Out("normal", s, tv(T(leaf, *args)))]
                 r = self.raising.get(leaf)
                 if r:
-                    outs.append(self._raise(st, node, leaf, r))
+                    outs.append(self._raise(st, node, leaf, r, args))
                 return outs
         return None
 
@@ -420,18 +421,37 @@ _OPS = {"==": lambda a, b: a == b, "in": lambda a, b: a in b, "<": lambda a, b: 
         ">": lambda a, b: a > b, ">=": lambda a, b: a >= b, "is": lambda a, b: a is b or (a == b and type(a) is type(b))}
 
 
+_EVAL = {"add": lambda a, b: a + b, "sub": lambda a, b: a - b, "mul": lambda a, b: a * b, "floordiv": lambda a, b: a // b, "mod": lambda a, b: a % b,
+         "divmod": lambda a, b: divmod(a, b), "idx": lambda a, i: a[i], "int": lambda a, *r: int(a, *r), "len": len, "lower": lambda a: a.lower(),
+         "upper": lambda a: a.upper(), "range": lambda *a: range(*a), "tuple": lambda *a: tuple(a), "abs": abs, "neg": lambda a: -a, "str": str,
+         "min": min, "max": max, "strip": lambda a, *r: a.strip(*r)}
+
+
 def _value_of(term, assign):
     if term in assign:
         return True, assign[term]
     op, args = destruct(term)
     if op == "const":
         return True, args
+    if op in _EVAL and args and all(not ("=" in a.split("(", 1)[0] and not a.startswith(("'", '"'))) for a in args):
+        vals = [_value_of(a, assign) for a in args]
+        if all(ok for ok, _ in vals):
+            try:
+                return True, _EVAL[op](*[v for _, v in vals])
+            except Exception:
+                return False, None
+        return False, None
     if isinstance(term, str) and term.startswith("frozenset("):
         try:
             return True, eval(term, {"__builtins__": {}, "frozenset": frozenset})
         except Exception:
             return False, None
     return False, None
+
+
+def _mentions(term, assign):
+    from .terms import subterms as _st
+    return term in assign or any(x in assign for x in _st(term))
 
 
 def consistent(row, assign):
@@ -443,7 +463,7 @@ def consistent(row, assign):
             continue
         oka, a = _value_of(k[1], assign)
         okb, b = _value_of(k[3], assign)
-        if not (oka and okb) or (k[1] not in assign and k[3] not in assign):
+        if not (oka and okb) or not (_mentions(k[1], assign) or _mentions(k[3], assign)):
             continue
         try:
             r = bool(_OPS[k[2]](a, b))
